@@ -42,6 +42,10 @@ C_Constructed(ev) ==
   /\ SameEnvp(ev.p.envp, ev.args.envp)
 
 WhyRT(ev)  == IF ev.rt = <<>> THEN {} ELSE WhyRoundTrip(ev.p, ev.rt[1])
+\* the settings belong to the caller: creating Scripts and asking queries does not change them, and a project saved AFTER
+\* it was used loads back with the constructor's settings (p2 / rt2: observed after all Scripts of the case)
+WhyUse(ev) == (IF ev.p2 # <<>> /\ ev.p2[1] # ev.p THEN {"SettingsChangedByUse"} ELSE {})
+              \cup (IF ev.rt2 = <<>> THEN {} ELSE {"AfterUse:" \o x : x \in WhyRoundTrip(ev.p, ev.rt2[1])})
 WhyImp(ev) == LET inn == InOf(ev) IN
      (IF \E k \in 1..Len(ev.wins) : ~C_ImportHead(ev.wins[k].w, inn, SetOf(ev.wins[k].h))
       THEN {"ImportHead"} ELSE {})
@@ -53,12 +57,13 @@ WhyImp(ev) == LET inn == InOf(ev) IN
 WhyCase(ev) == LET inn == InOf(ev) IN
   [ctor |-> IF C_Constructed(ev) THEN {} ELSE {"Constructed"},
    rt   |-> WhyRT(ev),
+   use  |-> WhyUse(ev),
    r0   |-> WhySysPath(ev.R0, inn, TRUE, FALSE),
    r1   |-> WhySysPath(ev.R1, inn, TRUE, TRUE),
    r2   |-> WhySysPath(ev.R2, inn, FALSE, FALSE),
    imp  |-> WhyImp(ev)]
 CaseOK(ev) == LET w == WhyCase(ev) IN
-  w.ctor = {} /\ w.rt = {} /\ w.r0 = {} /\ w.r1 = {} /\ w.r2 = {} /\ w.imp = {}
+  w.ctor = {} /\ w.rt = {} /\ w.use = {} /\ w.r0 = {} /\ w.r1 = {} /\ w.r2 = {} /\ w.imp = {}
 
 EventOK(ev) == IF ev.t = "disc" THEN RefDiscoverOK(ev.chain, ev.res) ELSE CaseOK(ev)
 WhyEv(ev)   == IF ev.t = "disc" THEN [disc |-> {"Discover"}] ELSE WhyCase(ev)
